@@ -8,6 +8,11 @@ class Ctx:
     def __init__(self, facts_path, tier='quick', repo='/repo', work=None):
         self.F = Facts(facts_path)
         self.F.summaries()
+        # helpers extracted from traversal kernels are spliced back into their callers (see inline.py)
+        from .inline import absorb_kernel_helpers
+        absorbed, new = absorb_kernel_helpers(self.F, lambda b: _k.kernel_params(self.F, b) is not None)
+        self.F.absorbed = absorbed
+        self.F.bodies.update(new)
         self.tier = tier
         self.repo = repo
         self.work = work
